@@ -169,8 +169,8 @@ class Gen:
         if k == 'dur':
             unit, ns = rng.choice([('ms', 10**6), ('s', 10**9), ('m', 60 * 10**9), ('h', 3600 * 10**9), ('d', 86400 * 10**9)])
             whole = rng.randint(0, 500)
-            frac = rng.choice(['', '', '.5', '.25', '.125'])
-            total = whole * ns + (int(float('0' + frac) * 1000) * ns // 1000 if frac else 0)
+            frac = rng.choice(['', '', '.5', '.25', '.125', '.2_5', '.12_5', '.1_2_5'])      # (underscores separate digits, also behind the point)
+            total = whole * ns + (int(float('0' + frac.replace('_', '')) * 1000) * ns // 1000 if frac else 0)
             neg = rng.random() < 0.2 and 'neg-dur' not in self.excl
             pre = rng.choice([('kw', 'TIME'), ('kw', 'T'), ('pk', 't')])
             if pre == ('kw', 'T'): pre = ('pk', 'T')
